@@ -460,6 +460,11 @@ func classes(c Case, st stats) (bool, []string) {
 	return st.event != wsref.EvEOF || st.fragmented, cl
 }
 
+// TestSideBySide: independent connections reading on several goroutines at once.
+func TestSideBySide(t *testing.T) {
+	ev.Parallel(t, prop, "side-by-side", 4, 200, 100, genCase, func(c Case) error { _, e := runCase(c); return e })
+}
+
 func TestSequences(t *testing.T) {
 	ev.Rapid(t, "sequences", 6000, 400000, func(t *rapid.T) {
 		c := genCase(t)
@@ -654,14 +659,15 @@ func TestOdometer(t *testing.T) {
 }
 
 func replayers() map[string]ev.Replayer {
-	return map[string]ev.Replayer{"sequences": func(raw json.RawMessage) error {
+	f := func(raw json.RawMessage) error {
 		var c Case
 		if err := json.Unmarshal(raw, &c); err != nil {
 			return err
 		}
 		_, e := runCase(c)
 		return e
-	}}
+	}
+	return map[string]ev.Replayer{"sequences": f, "side-by-side": f}
 }
 
 func TestRegress(t *testing.T) { ev.Regress(t, prop, replayers()) }
